@@ -51,7 +51,10 @@ def run(chk):
                        "real parser on generated tag sequences (corr:tagtree). Slots, the other attribute "
                        "families and the generated JavaScript text between template and runtime are covered by the reference-render oracle only; the Lean part also "
                        "proves the branch selector statement and name normalisation"]
-    chk.model_tie([("GE.Thm.C04", THEOREMS), ("GE.Thm.C04Tag", ["GE.TagSem.creation_denotes", "GE.TagSem.create_denotes", "GE.TagSem.firstTrue_range"])])
+    chk.model_tie([("GE.Thm.C04", THEOREMS), ("GE.Thm.C04Tag", ["GE.TagSem.creation_denotes", "GE.TagSem.create_denotes", "GE.TagSem.firstTrue_range"]),
+                   ("GE.Thm.C02Args", ["GE.ChildArgs.args_cover", "GE.ChildArgs.table_ok_range", "GE.ChildArgs.params_text", "GE.ChildArgs.childLevel_keys"])])
+    from . import childargs
+    childargs.run(chk)
     rng = chk.rng.fork("c04")
     # the tag-level model (creation_denotes is about it) vs the real compiler + runtime: the node tree after creation (and after updates)
     from . import tagsem
